@@ -120,6 +120,13 @@ func ioFaults(r *Run) {
 			w.RewriteAsForeignPar1(r)
 			kinds = append(kinds, "foreign-writer")
 		}
+		if !par1Set && t.Bool(1, 6, "foreign-writer") {
+			// the set as another PAR2 client would have written it, possibly
+			// with files in the non-recovery set
+			if w.RewriteAsForeignPar2(r) {
+				kinds = append(kinds, "foreign-writer")
+			}
+		}
 		sort.Strings(kinds)
 		stateClass = fmt.Sprint(uniq(kinds))
 	}
